@@ -26,10 +26,11 @@ import (
 func init() { register("c12", runC12) }
 
 type c12Input struct {
-	Script string   `json:"script,omitempty"`
-	Ops    []string `json:"ops,omitempty"` // instruction-wise hex of the script (for shrinking); Script wins if set
-	Base   int64    `json:"base"`
-	Limit  int64    `json:"limit"` // datoshi
+	Script  string   `json:"script,omitempty"`
+	Ops     []string `json:"ops,omitempty"` // instruction-wise hex of the script (for shrinking); Script wins if set
+	Base    int64    `json:"base"`
+	Limit   int64    `json:"limit"`             // datoshi
+	Methods []int    `json:"methods,omitempty"` // kind "methods" only: method offsets for IsScriptCorrect's bit field
 }
 
 func (in c12Input) script() []byte {
@@ -736,6 +737,10 @@ func runC12(args []string) error {
 			if err := json.Unmarshal(c, &x); err != nil {
 				return err
 			}
+			if x.Kind == "methods" {
+				c12RunMethods(co, "replay", x.Input)
+				continue
+			}
 			c12Run(co, x.Kind, "replay", x.Input)
 		}
 		return co.finish()
@@ -783,6 +788,9 @@ func runC12(args []string) error {
 		b := c12StaticProg(r, all)
 		base, limit := c13Bases(r, true)
 		c12Run(co, "bytes", "staticgen", c12Input{Script: hx(b), Base: base, Limit: limit})
+		if i%2 == 0 { // the same check with a methods bit field (Management.checkScriptAndMethods)
+			c12RunMethods(co, "staticgen", c12Input{Script: hx(b), Base: base, Limit: limit, Methods: c12GenMethods(r, b)})
+		}
 	}
 	// mutated deep programs: byte flips, truncation, instruction deletion/duplication
 	for i := 0; i < n/2 && len(keep) > 0; i++ {
